@@ -14,7 +14,7 @@ class C05(PropBase):
             'extended run')
 
     def scopes(self, tier):
-        return ['E1 (one pair, <= %d calls) and E2 (4 pair shapes, <= 2 calls), both classes' % (2 if tier == 'quick' else 3)]
+        return ['E1 (one pair, <= %d calls), E2 (4 pair shapes, <= 2 calls) and E3 (both orientations of one pair, all 32768 histories of 3 calls, t in 0..3, e <= t+3; DynGraph: every 4th on the quick tier), both classes' % (2 if tier == 'quick' else 3)]
 
     def exhaustive_cases(self, tier):
         for directed in (False, True):
@@ -23,6 +23,12 @@ class C05(PropBase):
             for i, h in enumerate(gen.exhaustive_E2(max_len=2, tmax=2 if tier == 'quick' else 3)):
                 if tier != 'quick' or i % 2 == 0:
                     yield dict(directed=directed, removal=True, hist=h, family='int', functional=(i % 2 == 0))
+        # E3: both orientations of one pair, all histories of exactly 3 calls (t in 0..3, e up to t+3): the events of
+        # reciprocal arcs share instants, and the bookkeeping of one must not touch the other's
+        for directed in (True, False):
+            for i, h in enumerate(gen.exhaustive_E3()):
+                if directed or tier != 'quick' or i % 4 == 0:
+                    yield dict(directed=directed, removal=True, hist=h, family='int', functional=False)
 
     def n_random(self, tier):
         return 1500 if tier == 'quick' else 150000
